@@ -5,7 +5,7 @@ VERIF = os.path.dirname(os.path.dirname(os.path.abspath(__file__)))
 SPEC = os.path.join(VERIF, "spec")
 REPO = os.environ.get("VERIF_REPO", "/repo")
 NCPU = min(16, os.cpu_count() or 4)
-JAVA_OPTS = "-XX:ParallelGCThreads=2 -XX:CICompilerCount=2 -Xss16m"
+JAVA_OPTS = "-XX:ParallelGCThreads=2 -XX:CICompilerCount=2 -Xss128m"
 
 
 class Broken(Exception):
@@ -32,11 +32,15 @@ def scratch(prefix):
 def run_tlc(module, cfg, env=None, workers=1, extra=(), timeout=1800, metadir=None, xmx="3g", cwd=SPEC):
     """Runs TLC; returns dict(rc, out, states, distinct, diameter, error)."""
     e = dict(os.environ)
-    e["JAVA_TOOL_OPTIONS"] = (JAVA_OPTS + " -Xmx" + xmx).strip()
+    e.pop("JAVA_TOOL_OPTIONS", None)
     if env:
         e.update({k: str(v) for k, v in env.items()})
     md = metadir or tempfile.mkdtemp(prefix="tlcmd-", dir="/dev/shm" if os.path.isdir("/dev/shm") else None)
-    cmd = ["timeout", str(timeout), "tlc", "-workers", str(workers), "-metadir", md, "-config", cfg] + list(extra) + [module]
+    # java is started directly (not through the tlc wrapper) so that -Xss also applies to the main
+    # thread, in which TLC evaluates ASSUMEs, initial states and their invariants
+    cmd = ["timeout", str(timeout), "java", "-Xss512m", "-Xmx" + xmx, "-XX:+UseParallelGC", "-XX:ParallelGCThreads=2", "-XX:CICompilerCount=2",
+           "-cp", "/opt/veriftools/tla/tla2tools.jar:/opt/veriftools/tla/CommunityModules-deps.jar", "tlc2.TLC",
+           "-workers", str(workers), "-metadir", md, "-config", cfg] + list(extra) + [module]
     t0 = time.time()
     r = subprocess.run(cmd, cwd=cwd, env=e, capture_output=True, text=True)
     shutil.rmtree(md, ignore_errors=True)
